@@ -21,7 +21,7 @@ REQUIRED_REACH = ['grad:watch', 'grad:grad', 'grad:grad_list', '_tt_base:TT.norm
                   '_extras:pad', '_extras:diag', '_tt_base:TT.mprod', '_tt_base:TT.__matmul__', '_tt_base:TT.sum', '_extras:kron', '_tt_base:TT.full']
 REQUIRED_COUNTS = {'operands_from_library': 100, 'api:grad.grad': 1, 'api:grad.grad_list': 1, 'api:grad.grad_list(all_in_one=False)': 1, 'api:grad.grad_list(all_in_one=True)': 1, 'api:autograd.grad': 1, 'gradients_compared': 300, 'fd_crosschecks': 100}
 LINE_FUNCS = ['grad', 'grad_list', 'watch']
-T_OPS = ['add', 'sub', 'mul', 'smul', 'rsmul', 'sadd', 'rsub', 'sdiv', 'neg', 'matvec', 'vecmat', 'mprod', 'padslice', 'catslice', 'bcastmul', 'pos', 'tsadd', 'tsradd', 'tssub', 'tsmul', 'tsdiv']
+T_OPS = ['add', 'sub', 'mul', 'smul', 'rsmul', 'sadd', 'rsub', 'sdiv', 'neg', 'matvec', 'vecmat', 'mprod', 'padslice', 'catslice', 'bcastmul', 'pos', 'tsadd', 'tsradd', 'tssub', 'tsmul', 'tsdiv', 'kronnone']
 S_OPS = ['sum', 'sumk', 'dot', 'dotk', 'norm', 'norm2', 'bilinear', 'fullw', 'mask', 'item', 'slicesum', 'kronw', 'diagbil', 'opfull', 'optfull', 'opmatmul', 'diagop', 'noneslice']
 
 
@@ -35,6 +35,8 @@ def gen_T(rng, depth, d):
         return [op, gen_T(rng, depth - 1, d), rng.choice([2.0, -0.5, 1.5, 3])]
     if op == 'mprod':
         return [op, gen_T(rng, depth - 1, d), rng.randrange(d)]
+    if op == 'kronnone':
+        return [op, gen_T(rng, depth - 1, d), rng.randrange(4)]
     if op in ('tsadd', 'tsradd', 'tssub', 'tsmul', 'tsdiv'):
         # TT combined with a scalar that itself depends on tracked cores (a 0-d tensor inside the autograd graph)
         sk = rng.choice(['sum', 'norm2', 'dot'])
@@ -115,6 +117,10 @@ def eval_tt(node, E):
         return -T(1)
     if op == 'pos':
         return +T(1)
+    if op == 'kronnone':
+        # the documented neutral element: kron(None, x) = kron(x, None) = None ** x = x ** None = x (used to seed Kronecker chains)
+        sub = T(1)
+        return [lambda t: tt.kron(None, t), lambda t: tt.kron(t, None), lambda t: None ** t, lambda t: t ** None][node[2]](sub)
     if op == 'matvec':
         return E.tt['A'] @ T(1)
     if op == 'vecmat':
@@ -223,7 +229,7 @@ def eval_dense(node, E):
         return T(1) / (abs(node[2]) if ab else node[2])
     if op == 'neg':
         return T(1) if ab else -T(1)
-    if op == 'pos':
+    if op in ('pos', 'kronnone'):
         return T(1)
     if op == 'matvec':
         return torch.tensordot(E.dn['A'], T(1), dims=d)
